@@ -84,13 +84,13 @@ PHY_PORT = [("port_no", "u16"), ("hw_addr", "mac"), ("name", "str", 16), ("confi
             ("state", "u32"), ("curr", "u32"), ("advertised", "u32"), ("supported", "u32"),
             ("peer", "u32")]
 
-_HDR = lambda t: [("version", "const", "u8", OFP_VERSION), ("type", "const", "u8", t),
-                  ("length", "len"), ("xid", "u32")]
-_NXHDR = lambda sub: _HDR(4) + [("vendor", "const", "u32", NX_VENDOR_ID),
-                                ("subtype", "const", "u32", sub)]
-_AHDR = lambda t: [("type", "const", "u16", t), ("len", "len")]
-_NXAHDR = lambda sub: _AHDR(0xffff) + [("vendor", "const", "u32", NX_VENDOR_ID),
-                                       ("subtype", "const", "u16", sub)]
+_HDR = lambda t: [("$version", "const", "u8", OFP_VERSION), ("$type", "const", "u8", t),
+                  ("$length", "len"), ("xid", "u32")]
+_NXHDR = lambda sub: _HDR(4) + [("$vendor", "const", "u32", NX_VENDOR_ID),
+                                ("$subtype", "const", "u32", sub)]
+_AHDR = lambda t: [("$type", "const", "u16", t), ("$len", "len")]
+_NXAHDR = lambda sub: _AHDR(0xffff) + [("$vendor", "const", "u32", NX_VENDOR_ID),
+                                       ("$subtype", "const", "u16", sub)]
 
 MESSAGES = {
   # kind: (ofp_type, body layout)
@@ -206,7 +206,7 @@ STATS_REPLY = {
                                 ("tx_packets", "u64"), ("tx_errors", "u64")]),
   "ofp_vendor_stats_generic": (0xffff, False, [("vendor", "u32"), ("data", "bytes")]),
 }
-FLOW_STATS = [("length", "len"), ("table_id", "u8"), (None, "pad", 1), ("match", "match"),
+FLOW_STATS = [("$length", "len"), ("table_id", "u8"), (None, "pad", 1), ("match", "match"),
               ("duration_sec", "u32"), ("duration_nsec", "u32"), ("priority", "u16"), ("idle_timeout", "u16"),
               ("hard_timeout", "u16"), (None, "pad", 6), ("cookie", "u64"), ("packet_count", "u64"),
               ("byte_count", "u64"), ("actions", "actions")]
@@ -222,7 +222,7 @@ QUEUE_PROPS = {
   "ofp_queue_prop_none": (0, []),
   "ofp_queue_prop_min_rate": (1, [("rate", "u16"), (None, "pad", 6)]),
 }
-PACKET_QUEUE = [("queue_id", "u32"), ("len", "len"), (None, "pad", 2), ("properties", "props")]
+PACKET_QUEUE = [("queue_id", "u32"), ("$len", "len"), (None, "pad", 2), ("properties", "props")]
 
 STRUCTS = {"ofp_phy_port": PHY_PORT}
 
@@ -548,7 +548,7 @@ def _dec_action(data, off, end):
   kind = _ACTION_BY_TYPE.get(t)
   if kind is None:
     return {"k": "ofp_action_generic", "f": {"type": t, "data": bytes(data[off + 4:off + ln])}}, off + ln
-  f, o2, _ = _dec_layout([("type", "u16"), ("len", "len")] + ACTIONS[kind][1], data, off, off + ln, kind, start=off)
+  f, o2, _ = _dec_layout([("type", "u16"), ("$len", "len")] + ACTIONS[kind][1], data, off, off + ln, kind, start=off)
   if o2 != off + ln:
     raise RefError("%s: length %d does not match its layout" % (kind, ln))
   if len(ACTIONS[kind][0]) == 1:
@@ -564,7 +564,7 @@ def _dec_prop(data, off, end):
     raise RefError("queue property length %d" % ln)
   for kind, (code, layout) in QUEUE_PROPS.items():
     if code == t and kind != "ofp_queue_prop_none":
-      f, o2, _ = _dec_layout([("property", "const", "u16", code), ("len", "len"), (None, "pad", 4)] + layout,
+      f, o2, _ = _dec_layout([("$property", "const", "u16", code), ("$len", "len"), (None, "pad", 4)] + layout,
                              data, off, off + ln, kind, start=off)
       if o2 != off + ln:
         raise RefError("%s: length %d does not match its layout" % (kind, ln))
@@ -814,6 +814,8 @@ def encode(frag, fields=None):
     g = dict(f)
     g.pop("match")
     tid = g.pop("table_id")
+    if not (0 <= g["command"] <= 0xff and 0 <= tid <= 0xff):
+      raise RefError("command/table_id range")
     g["command"] = g["command"] | (tid << 8)
     g["match_len"] = len(m)
     g["rest"] = m + b"\0" * _pad8(len(m)) + b"".join(encode(a) for a in expand_list(g.pop("actions")))
@@ -835,20 +837,20 @@ def encode(frag, fields=None):
       return _enc_layout(_AHDR(codes[0]) + lay, f, kind)
     if f.get("type") not in codes:
       raise RefError("%s: type must be one of %s" % (kind, codes))
-    return _enc_layout([("type", "u16"), ("len", "len")] + lay, f, kind)
+    return _enc_layout([("type", "u16"), ("$len", "len")] + lay, f, kind)
   if kind == "ofp_action_generic":
-    return _enc_layout([("type", "u16"), ("len", "len"), ("data", "bytes")], f, kind)
+    return _enc_layout([("type", "u16"), ("$len", "len"), ("data", "bytes")], f, kind)
   if kind in NX_ACTIONS:
     codes, lay = NX_ACTIONS[kind]
     if len(codes) == 1:
       return _enc_layout(_NXAHDR(codes[0]) + lay, f, kind)
     if f.get("subtype") not in codes:
       raise RefError("%s: subtype must be one of %s" % (kind, codes))
-    return _enc_layout(_AHDR(0xffff) + [("vendor", "const", "u32", NX_VENDOR_ID), ("subtype", "u16")] + lay, f, kind)
+    return _enc_layout(_AHDR(0xffff) + [("$vendor", "const", "u32", NX_VENDOR_ID), ("subtype", "u16")] + lay, f, kind)
   if kind == "nx_action_learn":
     g = dict(f)
     specs = b"".join(_enc_learn_spec(s) for s in g.pop("spec"))
-    body = _enc_layout([("vendor", "const", "u32", NX_VENDOR_ID), ("subtype", "const", "u16", NXAST_LEARN)] +
+    body = _enc_layout([("$vendor", "const", "u32", NX_VENDOR_ID), ("$subtype", "const", "u16", NXAST_LEARN)] +
                        LEARN_FIXED, g, kind) + specs
     body += b"\0" * _pad8(4 + len(body))
     return _finish_action(body, 0xffff)
@@ -858,7 +860,7 @@ def encode(frag, fields=None):
     if g.get("subtype") not in (NXAST_BUNDLE, NXAST_BUNDLE_LOAD):
       raise RefError("bundle subtype")
     g["n_slaves"] = len(slaves)
-    body = _enc_layout([("vendor", "const", "u32", NX_VENDOR_ID), ("subtype", "u16")] + BUNDLE_FIXED, g, kind)
+    body = _enc_layout([("$vendor", "const", "u32", NX_VENDOR_ID), ("subtype", "u16")] + BUNDLE_FIXED, g, kind)
     body += b"".join(_pk("u16", s, "slave") for s in slaves)
     body += b"\0" * _pad8(4 + len(body))
     return _finish_action(body, 0xffff)
@@ -869,12 +871,12 @@ def encode(frag, fields=None):
   if kind in STATS_REQUEST:
     return _enc_layout(STATS_REQUEST[kind][1], f, kind)
   if kind == "ofp_queue_prop_none":
-    return _enc_layout([("property", "const", "u16", 0), ("len", "len"), ("data", "bytes")], f, kind)
+    return _enc_layout([("$property", "const", "u16", 0), ("$len", "len"), ("data", "bytes")], f, kind)
   if kind == "ofp_queue_prop_generic":
-    return _enc_layout([("property", "u16"), ("len", "len"), ("data", "bytes")], f, kind)
+    return _enc_layout([("property", "u16"), ("$len", "len"), ("data", "bytes")], f, kind)
   if kind in QUEUE_PROPS:
     code, lay = QUEUE_PROPS[kind]
-    return _enc_layout([("property", "const", "u16", code), ("len", "len"), (None, "pad", 4)] + lay, f, kind)
+    return _enc_layout([("$property", "const", "u16", code), ("$len", "len"), (None, "pad", 4)] + lay, f, kind)
   if kind == "ofp_packet_queue":
     return _enc_layout(PACKET_QUEUE, f, kind)
   if kind == "ofp_phy_port":
@@ -1041,7 +1043,7 @@ def _dec_action_nx(data, off, end):
   if sub in _NXA_BY_SUB:
     kind = _NXA_BY_SUB[sub]
     codes, lay = NX_ACTIONS[kind]
-    f, o2, _ = _dec_layout(_AHDR(0xffff) + [("vendor", "const", "u32", NX_VENDOR_ID), ("subtype", "u16")] + lay,
+    f, o2, _ = _dec_layout(_AHDR(0xffff) + [("$vendor", "const", "u32", NX_VENDOR_ID), ("subtype", "u16")] + lay,
                            data, off, aend, kind, start=off)
     if o2 != aend:
       raise RefError("%s: length %d does not match its layout" % (kind, ln))
@@ -1049,15 +1051,15 @@ def _dec_action_nx(data, off, end):
       del f["subtype"]
     return {"k": kind, "f": f}, aend
   if sub == NXAST_LEARN:
-    f, o2, _ = _dec_layout(_AHDR(0xffff) + [("vendor", "const", "u32", NX_VENDOR_ID),
-                                           ("subtype", "const", "u16", NXAST_LEARN)] + LEARN_FIXED,
+    f, o2, _ = _dec_layout(_AHDR(0xffff) + [("$vendor", "const", "u32", NX_VENDOR_ID),
+                                           ("$subtype", "const", "u16", NXAST_LEARN)] + LEARN_FIXED,
                            data, off, aend, "nx_action_learn", start=off)
     f["spec"] = _dec_learn_specs(data, o2, aend)
     if ln % 8:
       raise RefError("learn length not a multiple of 8")
     return {"k": "nx_action_learn", "f": f}, aend
   if sub in (NXAST_BUNDLE, NXAST_BUNDLE_LOAD):
-    f, o2, _ = _dec_layout(_AHDR(0xffff) + [("vendor", "const", "u32", NX_VENDOR_ID), ("subtype", "u16")] +
+    f, o2, _ = _dec_layout(_AHDR(0xffff) + [("$vendor", "const", "u32", NX_VENDOR_ID), ("subtype", "u16")] +
                            BUNDLE_FIXED, data, off, aend, "nx_action_bundle", start=off)
     n = f.pop("n_slaves")
     if o2 + 2 * n > aend or ln % 8 or aend - (o2 + 2 * n) >= 8:
